@@ -564,6 +564,29 @@ func opSM(a []string) string {
 		verifiers = append(verifiers, mkVerifier(s, vlog))
 	}
 	detach := a[4] == "d"
+	if len(a) > 5 && a[5] == "alias" {
+		// one Go map OBJECT in several layers (a caller who wants the same protected header in the
+		// body and in the signers may well reuse one map): layers whose protected / unprotected maps
+		// are equal share the object.  The library must behave as if they were separate maps.
+		for _, sg := range m.Signatures {
+			if sg == nil {
+				continue
+			}
+			if m.Headers.Protected != nil && dumpOptMap(sg.Headers.Protected) == dumpOptMap(m.Headers.Protected) {
+				sg.Headers.Protected = m.Headers.Protected
+			}
+			if m.Headers.Unprotected != nil && dumpOptMap(sg.Headers.Unprotected) == dumpOptMap(m.Headers.Unprotected) {
+				sg.Headers.Unprotected = m.Headers.Unprotected
+			}
+		}
+		for i, sg := range m.Signatures {
+			for _, other := range m.Signatures[:i] {
+				if sg != nil && other != nil && other.Headers.Protected != nil && dumpOptMap(sg.Headers.Protected) == dumpOptMap(other.Headers.Protected) {
+					sg.Headers.Protected = other.Headers.Protected
+				}
+			}
+		}
+	}
 	var sb strings.Builder
 	err := m.Sign(rand.Reader, ext, signers...)
 	sb.WriteString("sign=" + errClass(err))
